@@ -85,17 +85,47 @@ class Run:
                     extra.append("-support-left-recursion")
                 variants.append(P.Variant(len(variants) + 1, "p%df%d" % (pi, fi), pk, list(fl) + list(extra)))
 
+        build_div = []
+
         def prep(v):
-            if not v.generate(pigeon):
-                return "gen"
-            if not v.build():
-                return "build"
-            return "ok"
+            if v.generate(pigeon) and v.build():
+                return "ok"
+            if not getattr(self, "bisect_build_failures", False):
+                return "gen" if v.gen_rc != 0 else "build"
+            # bisect: a pack that cannot be generated/compiled is split into single-group packages; the groups that fail alone
+            # are reported (the generated code of an accepted grammar must compile) and the pack is rebuilt without them
+            good = []
+            for g in list(v.groups):
+                flags1 = [f for f in v.flags]
+                if "-alternate-entrypoints" in flags1:
+                    ix = flags1.index("-alternate-entrypoints")
+                    names = [nm for nm in flags1[ix + 1].split(",") if nm.startswith("G%d_" % g.gi)]
+                    flags1[ix + 1] = ",".join(names) if names else g.sname()
+                v1 = P.Variant(v.vi * 100000 + g.gi, v.name + "_g%d" % g.gi, [g], flags1)
+                if v1.generate(pigeon) and v1.build():
+                    good.append(g)
+                else:
+                    build_div.append(dict(k=0, vi=v.vi, gi=g.gi, ii=1, oi=1, df="generated-code-does-not-build", at=0, haz=[],
+                                          detail=(v1.gen_err if v1.gen_rc != 0 else v1.build_err)[-600:]))
+                import shutil as _sh
+                _sh.rmtree(v1.dir, ignore_errors=True)
+            if not good:
+                return "empty"
+            if "-alternate-entrypoints" in v.flags:
+                ix = v.flags.index("-alternate-entrypoints")
+                keep = {"G%d_" % g.gi for g in good}
+                v.flags[ix + 1] = ",".join(nm for nm in v.flags[ix + 1].split(",") if any(nm.startswith(k_) for k_ in keep))
+            v.groups = good
+            if v.generate(pigeon) and v.build():
+                return "ok"
+            return "gen" if v.gen_rc != 0 else "build"
         st = P.parallel(prep, variants)
-        bad = [(v, s) for v, s in zip(variants, st) if s != "ok"]
+        bad = [(v, s) for v, s in zip(variants, st) if s not in ("ok", "empty")]
         if bad:
             v, s = bad[0]
             raise P.Inconclusive("%s failed for variant %s %s:\n%s" % (s, v.name, v.flags, v.gen_err if s == "gen" else v.build_err))
+        variants = [v for v, s in zip(variants, st) if s == "ok"]
+        self.build_div = build_div
 
         self.plans = {}
 
@@ -145,6 +175,7 @@ class Run:
                 confirmed.add(w[0])
             else:
                 rest.append(d)
+        rest = rest + [d for d in build_div if d["gi"] not in wit]
         for gi, w in wit.items():
             if w[0] in confirmed:
                 k = "%s: %s" % (w[0], findings.what(w[0]))
@@ -160,11 +191,11 @@ class Run:
     def replay_path(self, d):
         rd = os.path.join(P.VERIF, "replays", self.pid)
         os.makedirs(rd, exist_ok=True)
-        v = self.variants[d["vi"] - 1]
+        v = next((x for x in self.variants if x.vi == d["vi"]), self.variants[0])
         g = self.groups[d["gi"] - 1]
         rec = dict(property=self.pid, divergence=d, flags=v.flags, grammar=g.text(), group=g.to_case(),
                    input=self.inputs[d["ii"] - 1], input_text=bytes(self.inputs[d["ii"] - 1]).decode(errors="replace"),
-                   options=self.options[d["oi"] - 1], seed=self.seed, tier=self.tier)
+                   options=self.options[d["oi"] - 1], seed=self.seed, tier=self.tier, detail=d.get("detail", ""))
         h = hashlib.sha1(json.dumps(rec, sort_keys=True).encode()).hexdigest()[:10]
         path = os.path.join(rd, "%s_%s.json" % (d["df"], h))
         with open(path, "w") as f:
